@@ -7,6 +7,39 @@ pub open spec fn rec_refs<'a>(records: Seq<Record>) -> Seq<&'a Record> { Seq::ne
 pub open spec fn spec_top(records: Seq<Record>, limit: usize) -> Seq<usize> {
     ls_spec(rec_refs(records), limit, CmpRecords).map_values(|r: &Record| r.ix)
 }
+// ---- C12: the order of the empty-query ranking: higher rating first; at equal rating the normalised titles in Vec's (lexicographic,
+// code-point) order.  lex_cmp is uninterpreted; that it is a total preorder is the documented behaviour of Ord for Vec<char>.
+pub uninterp spec fn lex_cmp<T>(a: Seq<T>, b: Seq<T>) -> Ordering;
+pub open spec fn rec_order(a: &Record, b: &Record) -> Ordering {
+    if a.rating > b.rating { Ordering::Less } else if a.rating < b.rating { Ordering::Greater } else { lex_cmp(a.title.chars@, b.title.chars@) }
+}
+pub open spec fn rec_le(a: &Record, b: &Record) -> bool { rec_order(a, b) != Ordering::Greater }
+mod lax {
+    use vstd::prelude::*;
+    use core::cmp::Ordering;
+    use super::{lex_cmp, ls_le, rec_le, CmpRecords, Record};
+    pub axiom fn lex_total(a: Seq<char>, b: Seq<char>) ensures lex_cmp(a, b) != Ordering::Greater || lex_cmp(b, a) != Ordering::Greater;
+    pub axiom fn lex_trans(a: Seq<char>, b: Seq<char>, c: Seq<char>) ensures lex_cmp(a, b) != Ordering::Greater && lex_cmp(b, c) != Ordering::Greater ==> lex_cmp(a, c) != Ordering::Greater;
+    // link (rule R12b): the tag CmpRecords stands for the comparator closure of top_ixs, which is lifted into `cmp_records` and proved
+    // there to return rec_order
+    pub axiom fn ls_le_records(a: &Record, b: &Record) ensures ls_le::<&Record, CmpRecords>(CmpRecords, a, b) == rec_le(a, b);
+}
+pub proof fn lemma_rec_le_total(a: &Record, b: &Record) ensures rec_le(a, b) || rec_le(b, a) { lax::lex_total(a.title.chars@, b.title.chars@); }
+pub proof fn lemma_rec_le_trans(a: &Record, b: &Record, c: &Record) requires rec_le(a, b), rec_le(b, c) ensures rec_le(a, c) { lax::lex_trans(a.title.chars@, b.title.chars@, c.title.chars@); }
+pub proof fn lemma_ls_ok_records() ensures ls_ok::<&Record, CmpRecords>(CmpRecords)
+{
+    assert forall|x: &Record, y: &Record| #[trigger] ls_le::<&Record, CmpRecords>(CmpRecords, x, y) || ls_le::<&Record, CmpRecords>(CmpRecords, y, x) by {
+        lax::ls_le_records(x, y); lax::ls_le_records(y, x); lemma_rec_le_total(x, y);
+    }
+    assert forall|x: &Record, y: &Record, z: &Record| #[trigger] ls_le::<&Record, CmpRecords>(CmpRecords, x, y) && #[trigger] ls_le::<&Record, CmpRecords>(CmpRecords, y, z) implies ls_le::<&Record, CmpRecords>(CmpRecords, x, z) by {
+        lax::ls_le_records(x, y); lax::ls_le_records(y, z); lax::ls_le_records(x, z); lemma_rec_le_trans(x, y, z);
+    }
+}
+// C12: the ranking is in that order, and no record left out is before the last listed one
+pub open spec fn top_ordered(records: Seq<Record>, r: Seq<usize>) -> bool {
+    (forall|a: int, b: int| 0 <= a <= b < r.len() ==> rec_le(&records[#[trigger] r[a] as int], &records[#[trigger] r[b] as int]))
+    && (forall|j: int| 0 <= j < records.len() && !#[trigger] r.contains(j as usize) && r.len() > 0 ==> rec_le(&records[r.last() as int], &records[j]))
+}
 // contract of Store::top_ixs as Store::search sees it (C12 C06): min(limit, number of records) positions of existing records, none twice
 pub open spec fn top_post(len: int, limit: int, r: Seq<usize>) -> bool {
     r.len() == (if len < limit { len } else { limit }) && r.no_duplicates() && forall|k: int| 0 <= k < r.len() ==> #[trigger] r[k] < len
@@ -20,7 +53,7 @@ impl Store {
         &&& (forall|k: int| 0 <= k < self.records@.len() ==> (#[trigger] self.records@[k]).ix == k)
         // the cache is keyed by the limit it was computed for, so a direct write of `store.limit` (lib.rs::set_limit)
         // cannot make it stale
-        &&& (self.top_ixs matches Some(p) ==> p.1@ == spec_top(self.records@, p.0) && top_post(self.records@.len() as int, p.0 as int, p.1@))
+        &&& (self.top_ixs matches Some(p) ==> p.1@ == spec_top(self.records@, p.0) && top_post(self.records@.len() as int, p.0 as int, p.1@) && top_ordered(self.records@, p.1@))
         // C18 / C05 / C03: the posting lists list position j under gram g exactly when g is a gram of record j's title
         &&& self.indexed()
     }
